@@ -256,8 +256,8 @@ class IntrospectablePass(object):
                     obj.emitter = None
                     return False
                 for idx, signal_param in enumerate(obj.parameters):
-                    method_param = method.parameters[idx + 1]
-                    if signal_param.type.is_equiv(method_param.type):
+                    method_param = method.parameters[idx]
+                    if not signal_param.type.is_equiv(method_param.type):
                         self._parameter_warning(
                             parent,
                             obj,
